@@ -97,6 +97,21 @@ class G:
 
         return self.pick([("lit.str.double", 5, dq), ("lit.str.single", 2, sq), ("lit.str.triple", 1, triple)])
 
+    def docstring(self):
+        """A docstring literal with varied layout: text on the opening line or not, blank / whitespace-only / indented / trailing-space
+        lines at the edges and in the middle, closing quotes on their own (possibly indented) line."""
+        r = self.r
+        if not self.on("docstring.multi_line", 0.5):
+            self.feat.add("docstring.single_line")
+            return ['"""' + r.choice(["Doc.", "Module docs.", "Compute things.", "a", " padded ", "x  "]) + '"""']
+        words = ["Docs here.", "Run with: tool x", "  indented line", "trailing space ", "tab\there", "a b", "", "   ", "    ", "\t", "é: ünï", "- item"]
+        lines = [r.choice(words) for _ in range(r.randint(1, 4))]
+        first = r.choice(["", "", "Summary line.", " "])
+        close = r.choice(["", "", "    ", "  ", "\t"])
+        if lines[-1].strip() == "" and close == "" and r.random() < 0.5:
+            lines.append("end")
+        return ['"""' + first] + lines + [close + '"""']
+
     def bytes_lit(self):
         body = "".join(self.r.choice(["a", "Z", "0", " ", "\\n", "\\t", "\\\\", "\\x00", "\\xff", "\\x7f", "\\0", "~"]) for _ in range(self.r.randint(0, 4)))
         self.feat.add("lit.bytes")
@@ -313,7 +328,7 @@ class G:
             ("stmt.expr.method", 1.5, lambda: [self.name() + "." + self.name() + "(" + self.call_args(1) + ")"]),
             ("stmt.pass", 0.5, lambda: ["pass"]),
             ("stmt.ellipsis", 0.2, lambda: ["..."]),
-            ("stmt.docstring", 0.3, lambda: ['"""' + self.r.choice(["doc", "Docs here.", "a b"]) + '"""']),
+            ("stmt.docstring", 0.3, lambda: self.docstring()),
             ("stmt.yield", 0.3, lambda: [self.r.choice(["yield " + self.atom(), "yield"])]),
         ]
         if in_loop:
@@ -420,7 +435,7 @@ class G:
         lines.append(head + ":")
         body = []
         if self.on("decl.fn.docstring", 0.15):
-            body.append('"""' + self.r.choice(["Doc.", "Compute things.", "a"]) + '"""')
+            body += self.docstring()
         body += self.block(1)
         return lines + self.ind(body)
 
@@ -537,8 +552,7 @@ class G:
         ndecl = self.r.randint(1, 6) if ndecl is None else ndecl
         chunks = []
         if self.on("decl.module_docstring", 0.2):
-            chunks.append(self.pick([("docstring.single_line", 2, lambda: ['"""Module docs."""']),
-                                     ("docstring.multi_line", 1, lambda: ['"""', "Module docs.", "", "  indented line", '"""'])]))
+            chunks.append(self.docstring())
         for _ in range(self.r.randint(0, 2) if self.on("decl.import", 0.35) else 0):
             chunks.append(self.import_())
         for _ in range(ndecl):
